@@ -808,6 +808,14 @@ huge_map(struct huge_mem *h, size_t cap)
 {
     const size_t pg = (size_t)sysconf(_SC_PAGESIZE);
     const size_t body = (cap + pg - 1) / pg * pg;
+    /* the ring's storage really becomes resident (every slot is written): do
+     * not start on a machine that cannot spare it (the other capacity's
+     * mapping may be live in a sibling process: ask for twice the body plus
+     * 4 GiB of head room) - that is a cap, not something to find out from the
+     * kernel's OOM handler */
+    const long avail = sysconf(_SC_AVPHYS_PAGES);
+    if (avail > 0 && (uint64_t)avail * pg < 2 * (uint64_t)body + (4ull << 30))
+        return false;
     h->span = body + 2 * pg;
     h->base = mmap(NULL, h->span, PROT_NONE, MAP_PRIVATE | MAP_ANONYMOUS | MAP_NORESERVE, -1, 0);
     if (h->base == MAP_FAILED)
@@ -1027,8 +1035,8 @@ static void
 huge_family(void)
 {
     static const char *KN[NHUGEKINDS] = {
-        "fill(checkpoints),overfill,drain(checkpoints;refill-across-the-wrap-at-32-left),get-on-empty",
-        "fill(checkpoints),evict-past-every-boundary-and-once-around(checkpoints),get-64,put-2",
+        "fill(checkpoints),overfill,override(on)+put-2+override(off)+put-1,drain(checkpoints;refill-across-the-wrap-at-32-left),get-on-empty",
+        "fill(checkpoints),evict-past-every-boundary-and-once-around(checkpoints),get-64,put-2,clear,put-65",
     };
     /* partition = the shard of the process that drives this capacity: 14 and 15 carry the
      * lightest searches (capacity 8 and below); rotations: 0 and 1 on the smaller ring, 0 on the larger */
@@ -1069,7 +1077,7 @@ huge_family(void)
                 struct huge_mem hm;
                 if (!huge_map(&hm, (size_t)cap)) {
                     if (!said_map)
-                        mc_cap("huge-unmapped: no address range of 2^31 / 2^32 octets: rings of that capacity not driven");
+                        mc_cap("huge-unmapped: no address range or not enough free memory for a ring of 2^31 / 2^32 octets: rings of that capacity not driven");
                     said_map = true;
                     mc_end(false, "huge-unmapped");
                     continue;
@@ -1099,6 +1107,19 @@ huge_family(void)
                         huge_observe(&c, &m);
                     }
                     outcome = "huge-dropped";
+                    /* a change of mode on the full ring: two puts evict, back, one more is dropped */
+                    if (!mc.cur_failed) {
+                        octet_ring_override_if_full(&c, true);
+                        m.ovr = 1;
+                        huge_put_n(&c, &m, 2);
+                        huge_observe(&c, &m);
+                    }
+                    if (!mc.cur_failed) {
+                        octet_ring_override_if_full(&c, false);
+                        m.ovr = 0;
+                        huge_put_n(&c, &m, 1);
+                        huge_observe(&c, &m);
+                    }
                     uint64_t drained = 0;
                     for (int i = 0; i < nfill && !mc.cur_failed; ++i) {
                         huge_get_n(&c, &m, cp[i] - drained);
@@ -1136,6 +1157,17 @@ huge_family(void)
                         huge_observe(&c, &m);
                     if (!mc.cur_failed) {
                         huge_put_n(&c, &m, 2);
+                        huge_observe(&c, &m);
+                    }
+                    /* clear with the cursors far into the ring, then a short queue from there */
+                    if (!mc.cur_failed) {
+                        octet_ring_clear(&c);
+                        m.lo = m.hi;
+                        mc_trans(1);
+                        huge_observe(&c, &m);
+                    }
+                    if (!mc.cur_failed) {
+                        huge_put_n(&c, &m, HUGE_WIN + 1);
                         huge_observe(&c, &m);
                     }
                 }
@@ -1280,8 +1312,8 @@ main(int argc, char **argv)
              "capacities 2^{%s}-1..+1 x u8/u16/u32/float/double/int64 x override off/on x rotation {0,1,cap-1} x fill levels {0,1,2,2^8-1..2^8+1,2^15-1..2^15+1,2^16-1..2^16+1,cap-1,cap} "
              "x overfill 0..2 x drain {none,one,all-but-one,all}: structured histories with observers and both iterators (3 iterator-object histories) after fill, drain and wrap%s",
              maxcap, maxcap, mc_thorough() ? "8,15,16,17" : "8,16",
-             mc_thorough() ? "; octet_ring on capacities 2^31+16 (rotation 0,1) and 2^32+8 (rotation 0) of lazily committed memory x {override off: fill, 2 dropped puts, drain to empty (32 puts across the wrap when 32 are left), get on empty; "
-                             "override on: fill, capacity+32 evicting puts, 64 gets, 2 puts}, every get compared, size/empty/full and both iterators over their first 64 elements at the checkpoints "
+             mc_thorough() ? "; octet_ring on capacities 2^31+16 (rotation 0,1) and 2^32+8 (rotation 0) of lazily committed memory x {override off: fill, 2 dropped puts, override on + 2 evicting puts + override off + 1 dropped put, drain to empty (32 puts across the wrap when 32 are left), get on empty; "
+                             "override on: fill, capacity+32 evicting puts, 64 gets, 2 puts, clear, 65 puts}, every get compared, size/empty/full and both iterators over their first 64 elements at the checkpoints "
                              "{1,2,32,64,65, 2^31-32,2^31-1,2^31,2^31+1,2^31+32, 2^32-32..2^32+32 likewise, cap-32,cap-1,cap,cap+1,cap+32} counted in puts (fill), gets (drain) and evictions"
                            : "");
     mc_finish(true, bound);
